@@ -1061,6 +1061,12 @@ fn builders_fam(c: &mut Case) {
     scverif::builders::case(c, "C09")
 }
 
+/// the uniform api traits (Predictor / SupervisedEstimator / UnsupervisedEstimator / Transformer) behave
+/// exactly like the inherent methods
+fn api_paths_fam(c: &mut Case) {
+    scverif::apipaths::case(c, "C09")
+}
+
 fn main() {
     runner::main(Spec {
         property: "C09",
@@ -1075,6 +1081,7 @@ fn main() {
             "prediction rows whose decision gap is below 1e-9·(1 + Σ|x_j w_j| + |b|) are skipped",
         ],
         families: vec![
+            Family::new("api_paths", 300, 3000, api_paths_fam),
             Family::new("builders", 300, 3000, builders_fam),
             Family::new("lr_binary", 2500, 50000, lr_binary),
             Family::new("lr_multi", 1500, 30000, lr_multi),
